@@ -3,7 +3,6 @@ import MythVerif.Proofs.WsQueueTsoTac
 namespace MythVerif.WsqTso
 open MythVerif.Wsq
 
-set_option maxHeartbeats 4000000 in
 theorem o_pus (s s' : St) (e off) : Inv s → s.opc = .pus e off → stepO s = some s' → Inv s' := by
   intro h heq hs
   have hv := rc1_viewTop _ _ _ _ _ _ _ (h.pus e off heq)
@@ -11,7 +10,6 @@ theorem o_pus (s s' : St) (e off) : Inv s → s.opc = .pus e off → stepO s = s
   simp at hs; subst hs
   tso_fastO h heq [pus]
 
-set_option maxHeartbeats 4000000 in
 theorem o_puv (s s' : St) (e off) : Inv s → s.opc = .puv e off → stepO s = some s' → Inv s' := by
   intro h heq hs
   have hv := rc2_viewTop _ _ _ _ _ _ _ (h.puv e off heq)
@@ -20,7 +18,6 @@ theorem o_puv (s s' : St) (e off) : Inv s → s.opc = .puv e off → stepO s = s
   simp at hs; subst hs
   tso_fastO h heq [puv]
 
-set_option maxHeartbeats 4000000 in
 theorem o_pux (s s' : St) (e t) : Inv s → s.opc = .pux e t → stepO s = some s' → Inv s' := by
   intro h heq hs
   have hcfg := h.cfg
